@@ -887,6 +887,15 @@ func formatExpr(e Expression, opts FormatOptions) string {
 	return exprSQL(e)
 }
 
+// formatOperand formats e as an operand that must bind at least as tightly as min.
+func formatOperand(e Expression, opts FormatOptions, min int) string {
+	s := formatExpr(e, opts)
+	if e != nil && exprPrecedence(e) < min {
+		return "(" + s + ")"
+	}
+	return s
+}
+
 // formatStmt formats a statement using Format if available, otherwise SQL().
 func formatStmt(s Statement, opts FormatOptions) string {
 	if s == nil {
@@ -1043,7 +1052,7 @@ func (b *BetweenExpression) Format(opts FormatOptions) string {
 	f := newFormatter(opts)
 	sb := f.sb
 
-	sb.WriteString(formatExpr(b.Expr, opts))
+	sb.WriteString(formatOperand(b.Expr, opts, precConcat))
 	sb.WriteString(" ")
 	if b.Not {
 		sb.WriteString(f.kw("NOT"))
@@ -1051,11 +1060,11 @@ func (b *BetweenExpression) Format(opts FormatOptions) string {
 	}
 	sb.WriteString(f.kw("BETWEEN"))
 	sb.WriteString(" ")
-	sb.WriteString(formatExpr(b.Lower, opts))
+	sb.WriteString(formatOperand(b.Lower, opts, precConcat))
 	sb.WriteString(" ")
 	sb.WriteString(f.kw("AND"))
 	sb.WriteString(" ")
-	sb.WriteString(formatExpr(b.Upper, opts))
+	sb.WriteString(formatOperand(b.Upper, opts, precConcat))
 
 	return f.result()
 }
@@ -1068,7 +1077,7 @@ func (i *InExpression) Format(opts FormatOptions) string {
 	f := newFormatter(opts)
 	sb := f.sb
 
-	sb.WriteString(formatExpr(i.Expr, opts))
+	sb.WriteString(formatOperand(i.Expr, opts, precConcat))
 	sb.WriteString(" ")
 	if i.Not {
 		sb.WriteString(f.kw("NOT"))
